@@ -99,6 +99,15 @@ func vfStubHashM(h *types.Header) common.Hash {
 	return out
 }
 
+// a distinguished transaction handle: every write of a sync step must go through it
+type vfMeTxT struct{ pgx.Tx }
+
+var vfMeInTx *vfMeTxT
+
+func vfMeThroughTx(q *database.Queries) {
+	vfAssert(vfMeInTx != nil && vfDeepEq(q, database.New(vfMeInTx)), "writes-go-through-the-sync-transaction")
+}
+
 //verif:stub (*github.com/jackc/pgx/v4/pgxpool.Pool).BeginFunc
 func vfStubBeginFuncM(p *pgxpool.Pool, ctx context.Context, f func(pgx.Tx) error) error {
 	snapshot := vfTM
@@ -107,7 +116,9 @@ func vfStubBeginFuncM(p *pgxpool.Pool, ctx context.Context, f func(pgx.Tx) error
 		fail = vfTxFailM[vfTxNoM]
 	}
 	vfTxNoM++
-	err := f(nil)
+	vfMeInTx = &vfMeTxT{}
+	err := f(vfMeInTx)
+	vfMeInTx = nil
 	if err != nil || fail {
 		vfTM = snapshot
 		if err == nil {
@@ -136,6 +147,7 @@ func vfStubGetStatusM(q *database.Queries, ctx context.Context) (database.MultiE
 
 //verif:stub (*github.com/shutter-network/rolling-shutter/rolling-shutter/keyperimpl/shutterservice/database.Queries).SetMultiEventSyncStatus sql=setMultiEventSyncStatus
 func vfStubSetStatusM(q *database.Queries, ctx context.Context, arg database.SetMultiEventSyncStatusParams) error {
+	vfMeThroughTx(q)
 	vfTM.hasPos, vfTM.pos = true, arg.BlockNumber
 	vfTM.hashOnB = len(arg.BlockHash) == 32 && arg.BlockHash[0] == 0xB
 	vfTM.hashOnA = vfTM.hashOnB && arg.BlockNumber >= 0 && vfSameM(uint64(arg.BlockNumber))
@@ -144,6 +156,7 @@ func vfStubSetStatusM(q *database.Queries, ctx context.Context, arg database.Set
 
 //verif:stub (*github.com/shutter-network/rolling-shutter/rolling-shutter/keyperimpl/shutterservice/database.Queries).DeleteEventTriggerRegisteredEventsFromBlockNumber sql=deleteEventTriggerRegisteredEventsFromBlockNumber
 func vfStubDeleteRegM(q *database.Queries, ctx context.Context, from int64) error {
+	vfMeThroughTx(q)
 	if int64(vfOM.h) >= from {
 		vfTM.row, vfTM.rowFromA, vfTM.rowFromB = false, false, false
 	}
@@ -152,6 +165,7 @@ func vfStubDeleteRegM(q *database.Queries, ctx context.Context, from int64) erro
 
 //verif:stub (*github.com/shutter-network/rolling-shutter/rolling-shutter/keyperimpl/shutterservice/database.Queries).InsertEventTriggerRegisteredEvent sql=insertEventTriggerRegisteredEvent
 func vfStubInsertRegM(q *database.Queries, ctx context.Context, arg database.InsertEventTriggerRegisteredEventParams) (pgconn.CommandTag, error) {
+	vfMeThroughTx(q)
 	if arg.BlockNumber == int64(vfOM.h) {
 		vfTM.row, vfTM.rowFromB = true, true
 		vfTM.rowFromA = vfSameM(vfOM.h)
